@@ -5,9 +5,20 @@
     reserved-slot guard of [del] and the index arithmetic of [add] are the GENERATED functions of
     coq/Gen/SrcWaker.v.  Same assumption A-SC as C11. *)
 From Coq Require Import ZArith List Bool.
-From Stk Require Import Lib.U Gen.SrcWaker W.Waker W.WakerCore W.WakerRefine W.WakerProofs W.WakerDrop W.WakerSlot.
+From Stk Require Import Lib.U Gen.SrcWaker W.Waker W.WakerCore W.WakerRefine W.WakerProofs W.WakerDrop W.WakerSlot W.Monitors W.MonC12.
 Import ListNotations.
 Local Open Scope Z_scope.
+
+(** FULL STATEMENT, trace form: the executable monitor [C12_ok] (coq/W/Monitors.v; the one the check evaluates on
+    the REAL traces) is true on the trace of EVERY run of the model: all scripts, all numbers of threads and
+    wakers, all schedules.  [C12_ok]: (1) the handler of a plain waker is never called again after its
+    [deleted = true] call (so [deleted = true] comes last and at most once); (2) a [deleted = true] call only
+    happens for a waker whose [drop] command has begun - never for a live waker, whatever other wakers are woken
+    or dropped and whichever slot gets reused; (3) in a quiescent state (no command in progress, every thread
+    finished, no poll-wake pending) every [drop] that returned has had its [deleted = true] call.  No hypothesis. *)
+Theorem C12_trace : forall scr sched, C12_ok (flatten (wtrace scr sched)) false = true.
+Proof. exact C12_monitor. Qed.
+Print Assumptions C12_trace.
 
 (** In every reachable state: exactly the slots [k mod 4096 = 0] hold the drop handler, the free list
     is a duplicate-free chain through exactly the vacant entries, a bitmap exists exactly for every
